@@ -355,7 +355,11 @@ FIXED = [
 
 TOP_LITS = [('a', 97), ('Z', 90), ('_', 95), (' ', 32), ('\\.', 46), ('\\n', 10), ('\\r', 13), ('\\t', 9), ('\\x00', 0), ('\\x41', 65),
             ('\\\\', 92), ('\\[', 91), ('\\*', 42), ('\u00e9', 0xe9), ('\u4e2d', 0x4e2d), ('\U0001F600', 0x1f600), ('\\u{10FFFF}', 0x10ffff),
-            ('\\u{D7FF}', 0xd7ff), ('\\u{E000}', 0xe000), ('\n', 10), ('\\x7F', 127), ('\\u{80}', 128), ('-', 45), (']', 93), ('&', 38)]
+            ('\\u{D7FF}', 0xd7ff), ('\\u{E000}', 0xe000), ('\n', 10), ('\\x7F', 127), ('\\u{80}', 128), ('-', 45), (']', 93), ('&', 38),
+            # meta characters written as hex / unicode escapes are literals, not operators
+            ('\\x2e', 46), ('\\x2E', 46), ('\\x{2e}', 46), ('\\u{2e}', 46), ('\\u002e', 46), ('\\U0000002e', 46), ('\\x28', 40), ('\\x29', 41),
+            ('\\x2a', 42), ('\\x2b', 43), ('\\x3f', 63), ('\\x5b', 91), ('\\x5c', 92), ('\\x5d', 93), ('\\x5e', 94), ('\\x24', 36),
+            ('\\x7c', 124), ('\\x7b', 123), ('\\x0a', 10), ('\\x0d', 13)]
 
 
 def esc_cp(cp):
